@@ -1,0 +1,14 @@
+//go:build verif
+
+package embedded
+
+// Contracts checked by /verif (gvc). This file contains comments only and is compiled only with -tags verif.
+//
+// Property C18, reward / epoch history pages: page p of size s starts at epoch (last epoch - p*s) - over the integers, for every
+// 32-bit page index - and walks down one epoch per entry. (A page past the beginning of history is empty.)
+//@ func getFrontierRewardByPage(chain, contract, address, pageIndex, pageSize) -> (res, err)
+//@   loop 1
+//@     invariant 0 <= i && lastEpoch != nil && (lastEpoch.LastEpoch >= -1 ==> epoch == lastEpoch.LastEpoch - pageIndex * pageSize - i)
+//@ func PillarApi.GetPillarEpochHistory(a, pillarName, pageIndex, pageSize) -> (res, err)
+//@   loop 1
+//@     invariant 0 <= i && lastEpoch != nil && (lastEpoch.LastEpoch >= -1 ==> epoch == lastEpoch.LastEpoch - pageIndex * pageSize - i)
